@@ -257,6 +257,10 @@ def readUdfTree (i : Img) (c : UdfCtx) (rootLbn : Nat) : RM (Nat × Nat) := do
           nfiles := nfiles + 1
           fileFEs := fileFEs.push icbLbn
           if cfe.fileType = 12 then
+            -- the path components live in their own extent(s) in the file area
+            if cfe.embedded.isNone then
+              for (l, b) in cfe.ads do
+                if l > 0 then alloc s!"file:U{pathStr cpath}#symlink" (c.partStart + b) ((l + 2047) / 2048)
             let tgt ← udfSymlink (pathStr cpath) (gather i (fePieces c cfe)) [] false 300
             entry s!"U:L:{pathStr cpath}:{hex tgt}"
           else if cfe.fileType = 5 then
